@@ -57,6 +57,39 @@ Theorem C15_final_unregistered : forall cfg st a,
 Proof. exact final_unregistered. Qed.
 Print Assumptions C15_final_unregistered.
 
+(** ** "Not registered" means "not compiled by the last update", whatever the
+       class's static v-table pointer variable holds
+
+    Policy::static_vptr<C> is written by every update that compiles C and never
+    cleared: after C's class_declaration has been destroyed and update() has run
+    again, static_vptr<C> still holds C's table of the earlier update.  The
+    diagnosis does not depend on it: the two theorems above hold with ARBITRARY
+    contents [f] in the static v-table pointer variables ... *)
+Theorem C15_ctor_unregistered_any_static_content : forall cfg st a f,
+  checked_vector cfg -> reachable cfg st -> ~ In (a_dyn a) (classes st) ->
+  ctor cfg (with_svp st f) a = ([AHash (a_dyn a)], Error (UnknownClass (a_dyn a))).
+Proof. exact ctor_unregistered_any_static. Qed.
+Print Assumptions C15_ctor_unregistered_any_static_content.
+
+Theorem C15_final_unregistered_any_static_content : forall cfg st a f,
+  checked_vector cfg -> reachable cfg st -> a_dyn a = a_stat a -> ~ In (a_dyn a) (classes st) ->
+  final_ cfg (with_svp st f) a = ([ASvp (a_stat a); AHash (a_stat a)], Error (UnknownClass (a_stat a))).
+Proof. exact final_unregistered_any_static. Qed.
+Print Assumptions C15_final_unregistered_any_static_content.
+
+(** ... and, concretely, for the history register - update - unregister - update:
+    the static v-table pointer of the class is non-null (stale) and the class is
+    diagnosed on the exact-type constructor route and in final *)
+Theorem C15_unregistered_after_registered : forall cfg rs1 rs2 st0 a,
+  checked_vector cfg -> reachable cfg st0 -> In (a_dyn a) rs1 -> ~ In (a_dyn a) rs2 ->
+  let st := update cfg rs2 (update cfg rs1 st0) in
+  svp st (a_dyn a) = Some (a_dyn a, S (epoch st0)) /\
+  ctor cfg st a = ([AHash (a_dyn a)], Error (UnknownClass (a_dyn a))) /\
+  (a_dyn a = a_stat a ->
+   final_ cfg st a = ([ASvp (a_stat a); AHash (a_stat a)], Error (UnknownClass (a_stat a)))).
+Proof. exact unregistered_after_registered. Qed.
+Print Assumptions C15_unregistered_after_registered.
+
 (** make_virtual_shared<U>() for an unregistered U is final of a fresh U *)
 Corollary C15_make_virtual_shared_unregistered : forall cfg st o c ctrl box,
   checked_vector cfg -> reachable cfg st -> ~ In c (classes st) ->
@@ -102,13 +135,44 @@ Proof. vm_compute. reflexivity. Qed.
 (** the shortcut without the checked lookup: virtual_ptr<U>(u) succeeds with a
     null v-table pointer and no error; the next call crashes *)
 Example C15_ctor_legacy_D8_refuted :
-  match ctor_with TConstRef false (ex_dbg false) (ex_st false) (mk_arg 5 7%N 7%N 0 0 107%N) with
+  match ctor_with TConstRef CkNever (ex_dbg false) (ex_st false) (mk_arg 5 7%N 7%N 0 0 107%N) with
   | (log, Ok p) => deref (ex_st false) p = None /\ existsb (fun a => match a with AHash _ => true | _ => false end) log = false
   | _ => False end.
 Proof. vm_compute. split; reflexivity. Qed.
 
 Example C15_final_legacy_D8_refuted :
-  match final_with TConstRef false (ex_dbg false) (ex_st false) (mk_arg 5 7%N 7%N 0 0 107%N) with
+  match final_with TConstRef CkNever (ex_dbg false) (ex_st false) (mk_arg 5 7%N 7%N 0 0 107%N) with
   | (log, Ok p) => deref (ex_st false) p = None
   | _ => False end.
+Proof. vm_compute. reflexivity. Qed.
+
+(** ** Checking registration only when static_vptr<T> is null does not have the property
+
+    classes 0 <- 1 <- 2 and 3 (deriving from 2) compiled by the first update; 3
+    unregistered before the second.  With the check skipped for a non-null static
+    v-table pointer ([CkIfNull]), virtual_ptr<K3>(k3) and final succeed, carrying
+    the table of the FIRST update (released / rewritten by the second); the code
+    as it is ([ctor], [final_]) reports unknown class 3. *)
+Definition ex_hist (ind : bool) : state :=
+  update (ex_dbg ind) [0; 1; 2]%N (update (ex_dbg ind) [0; 1; 2; 3]%N init_state).
+
+Example C15_check_if_null_refuted :
+  map (fun ind =>
+    ( svp (ex_hist ind) 3%N,
+      match outcome (ctor_with TConstRef CkIfNull (ex_dbg ind) (ex_hist ind) (mk_arg 5 3%N 3%N 0 0 103%N)) with
+      | Ok p => deref (ex_hist ind) p | _ => None end,
+      match outcome (final_with TConstRef CkIfNull (ex_dbg ind) (ex_hist ind) (mk_arg 5 3%N 3%N 0 0 103%N)) with
+      | Ok p => deref (ex_hist ind) p | _ => None end,
+      outcome (ctor (ex_dbg ind) (ex_hist ind) (mk_arg 5 3%N 3%N 0 0 103%N)),
+      outcome (final_ (ex_dbg ind) (ex_hist ind) (mk_arg 5 3%N 3%N 0 0 103%N)),
+      epoch (ex_hist ind) )) [false; true]
+  = let r := ( Some (3%N, 1), Some (3%N, 1), Some (3%N, 1),
+               Error (UnknownClass 3%N), Error (UnknownClass 3%N), 2 ) in [r; r].
+Proof. vm_compute. reflexivity. Qed.
+
+(** a never-registered class has a null static v-table pointer: the skipped
+    check changes nothing for it (which is why only this history shows it) *)
+Example C15_check_if_null_never_registered :
+  outcome (ctor_with TConstRef CkIfNull (ex_dbg false) (ex_hist false) (mk_arg 5 7%N 7%N 0 0 107%N))
+  = Error (UnknownClass 7%N).
 Proof. vm_compute. reflexivity. Qed.
